@@ -283,6 +283,8 @@ def generate(seed: int, tier: str = "quick") -> dict:
             if rp.random() < 0.3:
                 ts.append(rp.choice(ts))  # duplicate
             rp.shuffle(ts)
+            if rp.random() < 0.04:
+                ts = []  # a list that happens to be empty (e.g. filtered down to nothing): denotes no bar
             spec["times"] = [T.iso(t) for t in ts]
         elif kind == "range":
             a, b = gen_range()
@@ -303,6 +305,8 @@ def generate(seed: int, tier: str = "quick") -> dict:
                 else:
                     rs.append(gen_range())
             rp.shuffle(rs)
+            if rp.random() < 0.04:
+                rs = []
             spec["ranges"] = [[T.iso(a), T.iso(b)] for a, b in rs]
         elif kind == "period":
             m = gen_mult()
@@ -639,7 +643,7 @@ ASSUMPTIONS = [
     "multiples keep their exact denotation (they fire independently of the ambiguous one)",
     "a time that is not a bar timestamp denotes no bar (fired set = denoted instants intersected with the bar grid); ranges "
     "select the bars whose timestamp lies in [start, end)",
-    "a time given with a seconds part denotes its minute (the constructors document that they set the seconds to 0; the bar clock has minute resolution); lists of times / ranges / periods are non-empty; periods are >= one bar",
+    "a time given with a seconds part denotes its minute (the constructors document that they set the seconds to 0; the bar clock has minute resolution); lists of periods are non-empty, lists of times / ranges may be empty (they denote no bar); periods are >= one bar",
     "T0 of a period trigger is the timestamp of the first bar of the run (period triggers are installed in initialize, or "
     "attached to the strategy before run() is called, as a constructor or the assembling script would); "
     "only time and range triggers are also installed mid-run, where bars before the installation are not denoted; triggers are "
